@@ -283,7 +283,9 @@ def toStr (E : Env) (o : Opt) (s : Sc) (v : SVal) : Bytes := (svalToString E o.t
 /-- one option of `writeGroupIni` (after the section header) -/
 def writeIniOption (E : Env) (o : Opt) (io : IniOpts) : Bytes :=
   let oname := optionIniName o
-  let cmt := if io.includeComments && o.desc ≠ [] then B "; " ++ o.desc ++ [0x0A] else []
+  -- every line of the description is a comment line (D23)
+  let cmt := if io.includeComments && o.desc ≠ [] then
+      B "; " ++ (o.desc.flatMap fun b => if b = 0x0A then B "\n; " else [b]) ++ [0x0A] else []
   let commentOption := io.includeDefaults && io.commentDefaults && valueIsDefault E o
   let body : Bytes :=
     match o.ty, o.val with
